@@ -165,7 +165,10 @@ def main():
     fs = docsnap.fixtures()
     if a.level < 2:
         # quick: the smaller half of the fixtures (by size) plus every built document
+        every = fs
         fs = sorted(fs, key=lambda f: os.path.getsize(f) if os.path.isfile(f) else 10 ** 9)[:45]
+        # plus a document with formula-error cells (cells the writer cannot store) in the middle of rows that hold other cells
+        fs += [f for f in every if os.path.basename(f) == "create-formulas.numbers" and f not in fs]
     cases = [{"path": f, "touch": tch} for f in fs for tch in (False, True)]
     cases += [{"built": k, "touch": tch} for k in ("values", "structure", "headers") for tch in (False, True)]
     return common.run(cases, run_case, key=lambda c: c.get("path") or c.get("built"))
